@@ -284,19 +284,34 @@ pub fn roles_line(l: &str) -> String {
         Err(_) => return "bad-case".into(),
     };
     let src = v["src"].as_str().unwrap_or("");
+    // optional: where the module under test lives, how the probe's entry module (/m/main) spells it, and further
+    // modules the host can supply (the module's own imports, and decoys at other paths)
+    let ppath = v["path"].as_str().unwrap_or("/m/p").to_string();
+    let pspec = v["spec"].as_str().unwrap_or("./p").to_string();
+    let mods: std::collections::HashMap<String, String> = v["mods"].as_object().map(|m| m.iter().map(|(k, x)| (k.clone(), x.as_str().unwrap_or("").to_string())).collect()).unwrap_or_default();
     // snapshot of the namespace, then call every exported `bump*` function twice and snapshot again (live bindings)
     let probe = |spec: &str| format!("import * as M from '{}';\nfunction snap(): string {{ const o: any = {{}}; for (const k of Object.keys(M).sort()) {{ const v = (M as any)[k]; if (typeof v !== 'function') o[k] = v; }} return JSON.stringify(o); }}\nconst s1 = snap();\nfor (const k of Object.keys(M).sort()) {{ if (k.startsWith('bump')) {{ (M as any)[k](); (M as any)[k](); }} }}\ns1 + ' AFTER ' + snap()", spec);
     let strip = |s: String| s;
     // (a) entry module
     let a = {
         let (mut interp, log) = prog::new_interp();
-        let mut r = interp.prepare(src, Some(ModulePath::new("/m/p".to_string())));
+        let mut r = interp.prepare(src, Some(ModulePath::new(ppath.clone())));
         let mut k = 0u64;
         let res = loop {
             k += 1;
             if k > 3_000_000 { break "BUDGET".to_string(); }
             match r {
                 Ok(StepResult::Continue) => r = interp.step(),
+                Ok(StepResult::NeedImports(reqs)) => {
+                    let mut any = false;
+                    for q in &reqs {
+                        if let Some(m) = mods.get(q.resolved_path.as_str()) {
+                            any |= interp.provide_module(q.resolved_path.clone(), m).is_ok();
+                        }
+                    }
+                    if !any { break "UNSATISFIED".to_string(); }
+                    r = interp.step();
+                }
                 Ok(StepResult::Complete(_)) => {
                     let mut names = interp.get_export_names();
                     names.sort();
@@ -317,7 +332,7 @@ pub fn roles_line(l: &str) -> String {
     // (b) provided dependency, (c) internal source module
     let via = |internal: bool| {
         let (mut interp, log) = prog::new_interp();
-        let spec = if internal { "virt:p" } else { "./p" };
+        let spec = if internal { "virt:p" } else { pspec.as_str() };
         if internal {
             interp.register_internal_module(tsrun::InternalModule::source("virt:p", src));
         }
@@ -331,8 +346,10 @@ pub fn roles_line(l: &str) -> String {
                 Ok(StepResult::NeedImports(reqs)) => {
                     let mut any = false;
                     for q in &reqs {
-                        if q.resolved_path.as_str() == "/m/p" {
+                        if q.resolved_path.as_str() == ppath {
                             any |= interp.provide_module(q.resolved_path.clone(), src).is_ok();
+                        } else if let Some(m) = mods.get(q.resolved_path.as_str()) {
+                            any |= interp.provide_module(q.resolved_path.clone(), m).is_ok();
                         }
                     }
                     if !any { break "UNSATISFIED".to_string(); }
@@ -345,5 +362,10 @@ pub fn roles_line(l: &str) -> String {
         };
         strip(format!("{} L:{}", res, prog::esc(&log.borrow().join("\u{1}"))))
     };
+    if !mods.is_empty() {
+        // an internal module has no directory of its own: relative imports are compared for entry vs dependency only
+        let b = via(false);
+        return format!("{}\t{}\t{}", a, b, b);
+    }
     format!("{}\t{}\t{}", a, via(false), via(true))
 }
